@@ -66,6 +66,19 @@ Ltac split_ifs :=
              end
          end.
 
+(* comparisons written the other way round in the source (`!(a >= b)` for `a < b`) leave branch
+   combinations that are contradictory: closed by arithmetic *)
+Ltac bool_hyps :=
+  repeat match goal with
+         | H : (_ <? _) = true |- _ => apply Z.ltb_lt in H
+         | H : (_ <? _) = false |- _ => apply Z.ltb_ge in H
+         | H : (_ <=? _) = true |- _ => apply Z.leb_le in H
+         | H : (_ <=? _) = false |- _ => apply Z.leb_gt in H
+         | H : (_ =? _) = true |- _ => apply Z.eqb_eq in H
+         | H : (_ =? _) = false |- _ => apply Z.eqb_neq in H
+         end.
+Ltac absurd_branch := exfalso; bool_hyps; lia.
+
 (* the generated step on the model's view of the state *)
 Definition reject_step_on (r : rule) (m : metric) (now_ms k b : Z) :=
   let tv := lru_find k (m_time m) in
@@ -97,7 +110,7 @@ Proof.
   cbv [interp fst snd fold_left act_reject argz nth_error dec_of_code
        op_time_add op_tok_add op_tok_get op_time_store op_tok_store op_tok_cas
        m_with_time m_with_tok m_time m_tok m_conc lru_add_if_absent lru_get];
-  rewrite ?Et, ?Ek, ?Z.eqb_refl; try reflexivity.
+  rewrite ?Et, ?Ek, ?Z.eqb_refl; try reflexivity; absurd_branch.
 Qed.
 
 (* ---- throttling controller ----------------------------------------------------------------- *)
@@ -152,7 +165,7 @@ Proof.
   cbv [interp fst snd fold_left act_throttle argz nth_error dec_of_code
        op_time_add op_time_store op_time_cas
        m_with_time m_with_tok m_time m_tok m_conc lru_add_if_absent];
-  rewrite ?Et, ?Z.eqb_refl; do 2 (cbn [lru_set]; rewrite ?Z.eqb_refl); try reflexivity.
+  rewrite ?Et, ?Z.eqb_refl; do 2 (cbn [lru_set]; rewrite ?Z.eqb_refl); try reflexivity; absurd_branch.
 Qed.
 
 (* ... which Proofs/HotspotRoundProofs.v shows (Flocq) for every spacing below 2^53 ms - far beyond the
